@@ -79,6 +79,8 @@ def match_known(prop, qualname, oname, detail, kf):
     for k in kf.get("known", []):
         if k["property"] != prop:
             continue
+        if k.get("bounded_check") or not (k.get("function") or k.get("clause")):
+            continue          # findings of bounded checks never excuse a refuted obligation
         if k.get("function") and k["function"] != qualname:
             continue
         if k.get("clause") and ("/" + k["clause"]) not in oname and not oname.endswith(k["clause"]):
